@@ -15,7 +15,7 @@ def plan(tier, pid="C01"):
         combos = [("spot1+fut", 0, 4 if deep == "spot1+fut" else 3), ("spot4+fut", 1, 3), ("fut+fut", 4, 4 if deep == "fut+fut" else 3),
                   ("etf+es", 5, 3), ("spot+spot", 1, 3), ("halfmult", 3, 3),
                   ("spot1+fut", 4, 3), ("fut+fut", 0, 3), ("etf+es", 1, 3), ("halfmult", 2, 3), ("spot4+fut", 5, 3), ("spot+spot", 3, 3)]
-        return [(u, ledger.FEES[f], d, 0.0) for u, f, d in combos] + [("micro", ledger.FEES[1], 3, 0.0), ("spot1+fut", ledger.FEES[1], 3, 0.05), ("fut+fut", ledger.FEES[0], 3, 0.05), ("three", ledger.FEES[1], 3, 0.0)]
+        return [(u, ledger.FEES[f], d, 0.0) for u, f, d in combos] + [("micro", ledger.FEES[1], 3, 0.0), ("penny", ledger.FEES[0], 3, 0.0), ("spot1+fut", ledger.FEES[1], 3, 0.05), ("fut+fut", ledger.FEES[0], 3, 0.05), ("three", ledger.FEES[1], 3, 0.0)]
     out = []
     for u in ledger.UNIVERSES:
         for f in (ledger.FEES[0], ledger.FEES[1], ledger.FEES[4], ledger.FEES[5]):
@@ -23,6 +23,8 @@ def plan(tier, pid="C01"):
     out.append(("three", ledger.FEES[1], 4, 0.0))
     out.append(("micro", ledger.FEES[1], 4, 0.0))
     out.append(("micro", ledger.FEES[0], 4, 0.05))
+    out.append(("penny", ledger.FEES[0], 4, 0.0))
+    out.append(("penny", ledger.FEES[3], 4, 0.0))
     # a level deeper on four combinations (split by first operation)
     for u, f in (("spot1+fut", 1), ("fut+fut", 4), ("spot4+fut", 0), ("etf+es", 5)):
         out.append((u, ledger.FEES[f], 5, 0.0))
